@@ -189,6 +189,10 @@ def vectors(m):
         ring = mcb.analyse(adj)
     except OverflowError:
         ring = None
+    # recorded gap of ring perception (C06, property text): in theta-type ring blocks the perceived ring set may be non-minimal, so the
+    # ring sizes an atom reports are not decidable from the minimum cycle basis there
+    from .c06 import theta_gap
+    gap = ring is not None and len(ring.get('relevant', ())) >= 2 and theta_gap(adj)
     out = {}
     for n, a in m.atoms():
         nb = [(k, b.order) for k, b in m._bonds[n].items() if b.order != 8]
@@ -205,7 +209,7 @@ def vectors(m):
                       D=len(nb), x=sum(1 for k, _ in nb if m.atom(k).atomic_number not in (1, 6)), hyb=hyb,
                       h=a.implicit_hydrogens,
                       in_ring=None if ring is None else n in ring['ring_atoms'],
-                      rsizes=None if ring is None or not ring['unique'] else {len(r) for r in ring['relevant'] if n in r})
+                      rsizes=None if ring is None or not ring['unique'] or gap else {len(r) for r in ring['relevant'] if n in r})
     return out, ring
 
 
